@@ -1,11 +1,20 @@
 /-
 C08 — Block contributions are ordered by dependency, not by position.
-(Work in progress.)
+
+Theorems about the scheduler-parametrised mirror of `graph.rs` / `BindingContext`
+(`ZV/Model/Graph.lean`) against the declarative notions of `ZV/Model/GraphSpec.lean`.
+Full statements are kept as `def … : Prop` in `ZV/Props/C08Statements.lean` (namespace
+`Statement`); a statement counts as proved only when a `theorem` of exactly that proposition
+appears below.
 -/
 import ZV.Model.Graph
+import ZV.Model.GraphSpec
+import ZV.Props.C08Statements
 
 namespace ZV.Props.C08
 open ZV.Graph
+
+
 
 /-- `sort_by_key` returns a permutation of its input (so no binding is lost or duplicated by the
 source-order tie-break). -/
